@@ -17,7 +17,8 @@ RULE = ('exhaustive stratum: every labelled connected graph with degree <= 4 on 
         'skeleton molecule so that marks and caches are exercised; random stratum: corpus, curated polycycles, generated '
         'fused/spiro/bridged assemblies and macrocycles under random renumbering with coordinate bonds added. oracle: independent '
         'two-assembly molecules; a rejected transaction that looked at the rings of the edited state; the original after a copy was renumbered. bridge/block finder, cycle enumeration and GF(2) minimum cycle basis. non-trivial = cyclomatic number >= 2; '
-        'distinct by labelled edge set / canonical string')
+        'distinct by labelled edge set / canonical string'
+        '; also: the curated witness list is swept completely on every run.')
 ASSUMPTIONS = ['reference minimum-cycle-basis sizes from exhaustive simple-cycle enumeration per biconnected block (vf/oracles/mcb.py)',
                'recorded heuristic gap (property text): ring blocks containing a pair of branch atoms joined by three internally '
                'disjoint paths that all have >= 3 bonds are outside the claimed domain for the minimality clause (counted)',
@@ -35,6 +36,7 @@ def shards(tier, seed):
         out += [dict(kind='exh', n=8, part=i, parts=96, max_rings=3) for i in range(96)]
     out += [dict(kind='mol', shard=i, n=250 if tier == 'quick' else 4000) for i in range(6 if tier == 'quick' else 12)]
     out.append(dict(kind='witness', n=24 if tier == 'quick' else 200))
+    out.append(dict(kind='curated'))
     return out
 
 
@@ -47,6 +49,9 @@ WITNESSES = ['C123C45C1C4(C2(C3)C5)C.C12C34C5(C1(C5)C3)C24', 'C123C45C1C4(C2(C3)
 def run_shard(shard, tier, seed):
     if shard['kind'] == 'exh':
         return direct_run(ID, graphs(shard), check_case)
+    if shard['kind'] == 'curated':
+        # the curated witnesses are swept completely on every run (drawn cases meet a given witness only now and then)
+        return direct_run(ID, ({'mol': {'k': 'smi', 's': s}, 'seed': seed * 100003 + i} for i, s in enumerate(molgen.curated())), check_case)
     if shard['kind'] == 'witness':
         return direct_run(ID, ({'mol': {'k': 'smi', 's': w}, 'seed': seed * 100003 + i} for w in WITNESSES for i in range(shard['n'])),
                           check_case)
